@@ -20,6 +20,7 @@ import ipaddress as pyip
 import math
 import pathlib
 import random
+import re
 import shlex
 import struct
 import warnings
@@ -30,11 +31,12 @@ from vf import core, recgen
 THEOREMS = [
     "C05_generated_facts", "C05_coerce_sound", "C05_rejects_fractions", "C05_without_boolean_fix",
     "C05_without_uint_fix", "C05_without_digest_fix", "C05_invariant", "C05_invariant_blank",
-    "C05_invariant_former_witness", "C05_failed_op_is_noop", "C05_none_is_always_accepted",
-    "C05_rejects_unrepresentable", "C05_rejects_uint16_out_of_range", "C05_rejects_uint32_out_of_range",
-    "C05_rejects_boolean_other_integer", "C05_rejects_non_bytes", "C05_rejects_malformed_digest",
-    "C05_rejects_address_out_of_range", "C05_accepts_representable", "C05_conversions", "C05_serialisable_partial",
-    "C05_refuted_lone_surrogate", "C05_list_elements", "C05_list_bad_element_rejects_all", "C05_hyp_satisfiable",
+    "C05_invariant_former_witness", "C05_failed_op_is_noop", "C05_grouped_assignment_is_member_assignment",
+    "C05_none_is_always_accepted", "C05_rejects_unrepresentable", "C05_rejects_uint16_out_of_range",
+    "C05_rejects_uint32_out_of_range", "C05_rejects_boolean_other_integer", "C05_rejects_non_bytes",
+    "C05_rejects_malformed_digest", "C05_rejects_address_out_of_range", "C05_accepts_representable",
+    "C05_conversions", "C05_serialisable_partial", "C05_refuted_lone_surrogate", "C05_list_elements",
+    "C05_list_bad_element_rejects_all", "C05_hyp_satisfiable",
 ]
 
 UTC = pydt.timezone.utc
@@ -173,6 +175,11 @@ class Enc:
         """an instance of the class of field type tn that exists already (read from a record's field)"""
         self.typed[id(inst)] = (tn, payload)
         self.keep.append(inst)
+        if tn.endswith("[]") and isinstance(payload, (list, tuple)) and len(inst) == len(payload):
+            # the elements of a typed list are instances of the element type built from the payload's elements
+            for x, y in zip(inst, payload):
+                if id(x) not in self.typed and x is not y:
+                    self.typed[id(x)] = (tn[:-2], y)
         return inst
 
     def same_class(self, c, tn):
@@ -246,6 +253,11 @@ class Enc:
         if id(v) in self.typed:
             t2, payload = self.typed[id(v)]
             self.oracle(payload, t2)
+            if tn.endswith("[]") and not self.same_class(t2, tn) and (t2.endswith("[]") or t2 in ("stringlist", "dictlist")):
+                # a list object of another flow.record list type: its elements go through the element rule
+                for x in v:
+                    self.oracle(x, tn[:-2])
+                return
             if not self.same_class(t2, tn) and not tn.endswith("[]") and tn != "record":
                 # an instance of another class: the constructor sees the builtin value it extends; only str()
                 # is asked of the instance itself
@@ -470,6 +482,41 @@ class World:
         self.foreign = []
         for t, n, v in src_fields:
             self.foreign.append((t, n, self.enc.register(getattr(self.src, n), t, v)))
+
+        list_fields = [("varint[]", "sizes", [80, 70000]), ("varint[]", "small", [1, 0]), ("string[]", "names", ["443", "not-an-ip"]),
+                       ("string[]", "ips", ["1.2.3.4", "::1"]), ("uint32[]", "bigs", [70000]), ("uint16[]", "ports", [22, 65535]),
+                       ("boolean[]", "flags", [True, False]), ("bytes[]", "raws", [b"ab"]), ("uri[]", "links", ["http://h/p"]),
+                       ("float[]", "floats", [1.0]), ("stringlist", "sl", ["a", b"b\xff"]), ("stringlist", "sl_ints", [1, 70000]),
+                       ("dictlist", "dl", [{"a": 1}]), ("varint[]", "none", [])]
+        self.src2_desc = RecordDescriptor("c05/listsource", [(t, n) for t, n, _ in list_fields])
+        self.src2 = self.src2_desc(_generated=T0, **{n: v for _, n, v in list_fields})
+        self.foreign_lists = []
+        for t, n, v in list_fields:
+            self.foreign_lists.append((t, n, self.enc.register(getattr(self.src2, n), t, v)))
+
+    def foreign_list_cands(self, tn):
+        """candidates for a T[] slot that are flow.record list objects of ANOTHER list type (another record's field)"""
+        et = tn[:-2]
+        out = []
+        if et in ("record", "stringlist", "dictlist"):
+            return out
+        for t, n, inst in self.foreign_lists:
+            if t == tn:
+                continue
+            if t == "float[]" and et != "dynamic" and TYPE_MAP[et] != "TFloat":
+                continue                    # float instances have no builtin form in the model
+            expects = []
+            classes = set()
+            for x in inst:
+                probe = Cand("probe", self._plain(x))
+                self.classify(et, probe)
+                expects.append(probe.expect)
+                classes |= probe.classes
+            exp = "reject" if "reject" in expects else ("accept" if expects and all(e == "accept" for e in expects) else None)
+            if not len(inst):
+                exp = "accept"
+            out.append(Cand("listobj_%s_%s" % (re.sub(r"\W", "_", t), n), inst, exp, classes))
+        return out
 
     def foreign_cands(self, tn):
         """candidates for a slot (or element) of scalar type tn that are field-type values of another type"""
@@ -715,7 +762,7 @@ class World:
             self.enc.typed[id(inst)] = (tn, [valid[0].value])
             self.enc.keep.append(inst)
             out.append(Cand("list_instance", inst, "accept"))
-        return out
+        return out + self.foreign_list_cands(tn)
 
     def classify_list(self, et, c):
         """a non-list value handed to a list field: what its iteration yields decides the class"""
@@ -881,6 +928,8 @@ KW_NAMES = ["from", "f1", "class", "f3"]
 class Case:
     """a descriptor (user field types; kw = keyword-named fields) and a list of operations:
        ("construct", {idx: (tn, kind)}) | ("set", idx, (tn, kind)|None) | ("replace", {idx: (tn, kind)|None})
+       | ("gset", idx, (tn, kind)|None)  assignment through a GroupedRecord view on the record
+       | ("init_from", {idx: (tn, kind)})  Target.init_from_record(<record whose field holds the value>)
        | ("set_unknown", (tn, kind)) | ("replace_unknown", (tn, kind))"""
 
     def __init__(self, types, kw, ops, label):
@@ -983,6 +1032,41 @@ def execute(world, case, check_serialise=True):
                     coq_ops.append("(OSet %d%%nat %s)" % (idx, enc.pv(v)))
                     setattr(cur, all_names[idx], v)
                     new = cur
+                elif op[0] == "gset":
+                    from flow.record import GroupedRecord
+                    idx = op[1]
+                    c, v = get(op[2])
+                    tn = fields[idx][0]
+                    used.append((idx, tn, c))
+                    if c is not None:
+                        enc.oracle(v, tn)
+                    coq_ops.append("(OSetGrouped %d%%nat %s)" % (idx, enc.pv(v)))
+                    group = GroupedRecord("c05/group", [cur, world.rec_b])
+                    setattr(group, all_names[idx], v)
+                    new = cur
+                    if getattr(group, all_names[idx]) is not getattr(cur, all_names[idx]):
+                        raise AssertionError("the group and its member disagree on %s" % all_names[idx])
+                elif op[0] == "init_from":
+                    from flow.record import RecordDescriptor
+                    args = ["PNone"] * len(case.types)
+                    sfields, svals = [], {}
+                    for idx, ref in op[1].items():
+                        idx = int(idx)
+                        c, v = get(ref)
+                        t2, payload = enc.typed[id(v)]
+                        sfields.append((t2, names[idx]))
+                        svals[names[idx]] = payload
+                        used.append((idx, case.types[idx], c))
+                    src = RecordDescriptor("c05/initsource", sfields)(_generated=T0, **svals)
+                    for idx, ref in op[1].items():
+                        idx = int(idx)
+                        c, v = get(ref)
+                        val = getattr(src, names[idx])
+                        enc.register(val, *enc.typed[id(v)])
+                        enc.oracle(val, case.types[idx])
+                        args[idx] = enc.pv(val)
+                    coq_ops.append("(OConstruct (%s ++ ARGS0))" % clist(args))
+                    new = d.init_from_record(src)
                 elif op[0] == "set_unknown":
                     c, v = get(op[1])
                     coq_ops.append("(OSet %d%%nat %s)" % (nslots, enc.pv(v)))
@@ -1015,7 +1099,7 @@ def execute(world, case, check_serialise=True):
             cur = new
             for idx, tn, c in used:
                 slot_cand[idx] = (tn, c)
-            if op[0] == "construct":
+            if op[0] in ("construct", "init_from"):
                 for idx in list(slot_cand):
                     if idx not in [u[0] for u in used]:
                         del slot_cand[idx]
@@ -1110,7 +1194,10 @@ def single_cases(world, typenames, kws=(False, True)):
             for c in world.table(form):
                 ref = (form, c.kind)
                 for kw in (kws if tn not in ALIASES else (False,)):
-                    ops = [("construct", {}), ("set", 0, ref), ("construct", {0: ref}), ("replace", {0: ref}), ("set", 0, None)]
+                    ops = [("construct", {}), ("set", 0, ref), ("construct", {0: ref}), ("replace", {0: ref}), ("gset", 0, ref)]
+                    if c.kind.split(":")[-1].startswith(("foreign_", "listobj_")) and ":" not in c.kind:
+                        ops.append(("init_from", {0: ref}))      # Target.init_from_record(source record)
+                    ops += [("gset", 0, None) if kw else ("set", 0, None)]
                     out.append(Case([form], kw, ops, "table"))
     return out
 
@@ -1138,8 +1225,10 @@ def random_cases(world, typenames, rnd, n):
                 return (tn, rnd.choice(tbl).kind)
             x = rnd.random()
             idx = rnd.randrange(nres)
-            if x < 0.45:
+            if x < 0.33:
                 ops.append(("set", idx, pick(idx)))
+            elif x < 0.45:
+                ops.append(("gset", idx, pick(idx) if rnd.random() < 0.9 else None))
             elif x < 0.52:
                 ops.append(("set", idx, None))
             elif x < 0.70:
@@ -1177,9 +1266,9 @@ def evaluate(ctx, world, cases, kf, coq=True):
         for si, st in enumerate(steps):
             op = case.ops[si]
             refs = []
-            if op[0] in ("set", "set_unknown", "replace_unknown"):
+            if op[0] in ("set", "gset", "set_unknown", "replace_unknown"):
                 refs = [op[-1]]
-            elif op[0] in ("construct", "replace"):
+            elif op[0] in ("construct", "replace", "init_from"):
                 refs = list(op[1].values())
             ctx.count_case((tuple(case.types), case.kw, si, op[0], tuple(map(repr, refs)), st["outcome"] == "accepted"),
                            nontrivial=bool(refs))
@@ -1364,9 +1453,9 @@ def replay(obj):
     ops = []
     for op in obj["ops"]:
         op = list(op)
-        if op[0] in ("construct", "replace"):
+        if op[0] in ("construct", "replace", "init_from"):
             op[1] = {int(k): (tuple(v) if v is not None else None) for k, v in op[1].items()}
-        elif op[0] == "set":
+        elif op[0] in ("set", "gset"):
             op[2] = tuple(op[2]) if op[2] is not None else None
         else:
             op[1] = tuple(op[1])
